@@ -239,7 +239,9 @@ fn active() -> bool {
 }
 #[inline]
 fn sched_on() -> bool {
-    SCHED.load(Ordering::Relaxed) && cur_task() >= 0
+    // (harness sections -- spawning and waiting for an exec'ed child, reading /proc -- talk to
+    // things that are outside the scheduler's world: plain pass-through there)
+    SCHED.load(Ordering::Relaxed) && cur_task() >= 0 && HARNESS_SECTION.load(Ordering::Relaxed) == 0
 }
 
 fn transport_tick() {
